@@ -84,6 +84,16 @@ class Module:
         from .desugar import desugar_matches
 
         self.desugared_matches = desugar_matches(self.tree) if " match " in text or "\nmatch " in text else 0
+        # new module-level compiled regexes are read where they are applied (octacheck.consts)
+        self.inlined_regexes = 0
+        if not os.environ.get("OCTACHECK_NO_INLINE") and "re.compile(" in text:
+            from .inline import known_functions as _kf
+
+            _k = _kf().get(name)
+            if _k is not None and "<consts>" in _k:
+                from .consts import inline_new_compiled_regexes
+
+                self.inlined_regexes = inline_new_compiled_regexes(self.tree, set(str(_k["<consts>"]).split()))
         # one-expression closures and partial objects bound to a local are read as the calls they abbreviate (octacheck.closures)
         self.reduced_abbreviations = 0
         if not os.environ.get("OCTACHECK_NO_INLINE") and ("partial(" in text or "\n        def " in text or "\n    def " in text):
@@ -185,6 +195,12 @@ class Module:
         # the old helper (the rules' callee summaries apply), not a new one
         vanished = {d for q, d in known.items() if q not in self.functions and d}
         new = {q for q, f in self.functions.items() if q not in known and f.parent_func is None and body_digest(f.node) not in vanished}
+        # calls through a constant table of new helpers / lambdas are read as the if/elif chain they abbreviate (octacheck.dispatch)
+        self.desugared_dispatch = 0
+        if "lambda" in self.text or new:
+            from .dispatch import desugar_dispatch
+
+            self.desugared_dispatch = desugar_dispatch(self.tree, {self.functions[q].name for q in new})
         if not new:
             return
         # recursive helpers (directly, or through other new helpers) are never read in place: there is no finite place to read
@@ -206,10 +222,6 @@ class Module:
         if not new:
             return
         new_names = {self.functions[q].name for q in new}
-        # calls through a constant table of new helpers are read as the if/elif chain they abbreviate (octacheck.dispatch)
-        from .dispatch import desugar_dispatch
-
-        self.desugared_dispatch = desugar_dispatch(self.tree, new_names)
         for q, fi in list(self.functions.items()):
             if fi.parent_func is not None:
                 continue  # (new helpers are read in place inside other new helpers too; a helper is never inlined into itself)
